@@ -41,6 +41,8 @@ package main
 //   return &SecurityRequirementsError{SecurityRequirements: srs, Errors: errs}   → .failAll
 //
 // func validateSecurityRequirement(ctx, input, securityRequirement):
+//   if len(securityRequirement) == 0 { return nil }                       → .emptyReqOk   (not in the pinned source; the shape of
+//                                                                            the repair proposed for finding F-C07-1)
 //   names := make([]string, 0, len(securityRequirement)); for name := range securityRequirement { names = append(names, name) };
 //   sort.Strings(names)                                                   → .sortedNames
 //   options := input.Options ; if options == nil { options = &Options{} }  → .optionsDefault
@@ -617,6 +619,9 @@ func (c *c07x) securityRequirement(fd *ast.FuncDecl) []string {
 	for i := 0; i < len(list); {
 		s, t := list[i], txt[i]
 		switch {
+		case t == "if len("+sr+") == 0 { return nil }":
+			rows = append(rows, ".emptyReqOk")
+			i++
 		case t == "names := make([]string, 0, len("+sr+"))" && i+2 < len(list) &&
 			txt[i+1] == "for name := range "+sr+" { names = append(names, name) }" && txt[i+2] == "sort.Strings(names)":
 			rows = append(rows, ".sortedNames")
@@ -839,6 +844,7 @@ inductive C07Row
   | emptyOk
   | tryEach (onFail : C07Exit)
   | failAll
+  | emptyReqOk
   | sortedNames
   | needAuthFunc
   | schemesFromComponents
